@@ -36,6 +36,7 @@ theorem assoc_assocSet {β} (k a : Addr) (v : β) : ∀ (l : List (Addr × β)),
     by_cases h : a = k'
     · subst h
       simp only [if_true, assoc]
+      by_cases hk : k = a <;> simp [hk]
     · simp only [h, if_false, assoc]
       by_cases hk : k = k'
       · subst hk
@@ -230,54 +231,35 @@ theorem buildTerm_grows (ds : Text) (b b' : Built) (term : Text) (h : buildTerm 
   simp only at h
   by_cases hc : Model.C03.has ':' term = true
   · simp only [hc, if_true] at h
-    by_cases hb : Model.C03.has '!' term = true
-    · simp only [hb, if_true] at h
-      cases hr : Model.C03.resolveRanges term with
-      | val p =>
-        obtain ⟨s, mtx⟩ := p
-        rw [hr] at h
-        simp only [assoc_assocSet, if_true] at h
-        cases ha : addBlanks (List.flatten mtx) b.cells with
-        | error e => rw [ha] at h; simp at h
-        | ok cells =>
-          rw [ha] at h
-          simp only [Except.ok.injEq] at h
-          subst h
-          obtain ⟨p1, p2⟩ := addBlanks_spec _ _ _ ha
-          exact ⟨p1, p2, fun key hk => by
-            rcases keys_assocSet _ _ _ key hk with e | e
-            · exact Or.inr (e ▸ hc)
-            · exact Or.inl e⟩
-      | crash _ => rw [hr] at h; simp at h
-      | nan => rw [hr] at h; simp at h
-      | posInf => rw [hr] at h; simp at h
-      | negInf => rw [hr] at h; simp at h
-      | diverge => rw [hr] at h; simp at h
-    · simp only [hb, if_false] at h
-      cases hr : Model.C03.resolveRanges (ds ++ ['!'] ++ term) with
-      | val p =>
-        obtain ⟨s, mtx⟩ := p
-        rw [hr] at h
-        simp only [assoc_assocSet, if_true] at h
-        cases ha : addBlanks (List.flatten mtx) b.cells with
-        | error e => rw [ha] at h; simp at h
-        | ok cells =>
-          rw [ha] at h
-          simp only [Except.ok.injEq] at h
-          subst h
-          obtain ⟨p1, p2⟩ := addBlanks_spec _ _ _ ha
-          exact ⟨p1, p2, fun key hk => by
-            rcases keys_assocSet _ _ _ key hk with e | e
-            · refine Or.inr (e ▸ ?_)
-              simp only [Model.C03.has, List.contains_eq_mem, List.mem_append, decide_eq_true_eq] at hc ⊢
-              exact Or.inr hc
-            · exact Or.inl e⟩
-      | crash _ => rw [hr] at h; simp at h
-      | nan => rw [hr] at h; simp at h
-      | posInf => rw [hr] at h; simp at h
-      | negInf => rw [hr] at h; simp at h
-      | diverge => rw [hr] at h; simp at h
-  · simp only [hc, if_false] at h
+    generalize hrg : (if Model.C03.has '!' term = true then term else ds ++ ['!'] ++ term) = range at h
+    have hcr : Model.C03.has ':' range = true := by
+      rw [← hrg]
+      split
+      · exact hc
+      · simp only [Model.C03.has, List.contains_eq_mem, List.mem_append, decide_eq_true_eq] at hc ⊢
+        exact Or.inr hc
+    cases hr : Model.C03.resolveRanges range with
+    | val p =>
+      obtain ⟨s, mtx⟩ := p
+      rw [hr] at h
+      simp only [assoc_assocSet, if_true] at h
+      cases ha : addBlanks (List.flatten mtx) b.cells with
+      | error e => rw [ha] at h; simp at h
+      | ok cells =>
+        rw [ha] at h
+        simp only [Except.ok.injEq] at h
+        subst h
+        obtain ⟨p1, p2⟩ := addBlanks_spec _ _ _ ha
+        exact ⟨p1, p2, fun key hk => by
+          rcases keys_assocSet _ _ _ key hk with e | e
+          · exact Or.inr (e ▸ hcr)
+          · exact Or.inl e⟩
+    | crash _ => rw [hr] at h; simp at h
+    | nan => rw [hr] at h; simp at h
+    | posInf => rw [hr] at h; simp at h
+    | negInf => rw [hr] at h; simp at h
+    | diverge => rw [hr] at h; simp at h
+  · simp only [hc, Bool.false_eq_true, if_false] at h
     cases hr : assoc term b.ranges with
     | none => rw [hr] at h; simp only [Except.ok.injEq] at h; subst h; exact Grows.refl b
     | some r =>
